@@ -38,6 +38,13 @@ def NodeD.outPin (n : NodeD) (i : Nat) : Option Nat := (n.outs.getD i none)
 def NodeD.nIns (n : NodeD) : Nat := (n.ins.filter Option.isSome).length
 
 def Net.node (net : Net) (i : Nat) : NodeD := net.nodes.getD i default
+
+/-- **arity domain** (audit finding 1 / known finding D33): every node that is neither a fork nor a state element has at most FOUR
+input pin slots.  `lineEq` / `evalLineG` below — and the real `SimOps` (sim.py: the arity variant is chosen by pins 2 and 3, operands
+are pins 0..3) — read pins 0..3 only: a gate with more input pins means, for both, the 4-input primitive of its first four pins.
+Inside this domain the gate equations below are the equations the netlist describes; outside they are what kyupy computes, not what
+a reader of the netlist expects (`C11.wide_gate_not_simulated`). -/
+def Net.arityOKB (net : Net) : Bool := net.nodes.all fun n => n.isFork || n.isSeq || n.ins.length ≤ 4
 def Net.line (net : Net) (i : Nat) : LineD := net.lines.getD i default
 
 /-- `Circuit.s_nodes`: ports, then flip-flops, then latches (node order) -/
@@ -184,10 +191,19 @@ def prim2 (name : String) (a b c d : Bool) : Bool := (formula name a b c d).getD
 def evalLine (net : Net) (a : Nat → Bool) : Nat → Nat → Bool := evalLineG net false (!·) prim2 a
 def evalCaptures (net : Net) (a : Nat → Bool) : List (Option Bool) := evalCapturesG net false (!·) prim2 a
 
-/-- next-state function: captured values of the state elements become their assignment; ports keep theirs -/
+/-- **independent next-state specification** (property C01: "applying the circuit's next-state function"), from a labelling `v` of
+the lines: a port keeps its value; a state element at position `p` takes what its data pin 0 carries under `v`; a state element
+with OPEN data pin captures the constant `z` (= 0: the documented rule "an unconnected pin reads constant 0"; the code since the D9
+repair copies the constant-0 slot).  Tied to the simulator by `C01.nextState_is_spec`. -/
+def nextStateFrom (net : Net) (z : Bool) (v : Array Bool) (a : List Bool) : List Bool :=
+  a.mapIdx fun p x => if net.io.length ≤ p then
+    (match (net.node (net.sNodes.getD p 0)).inPin 0 with | some l => v.getD l z | none => z) else x
+
+/-- next-state function, executable (driver `eval2`): `nextStateFrom` of the labelling the evaluator `evalAll` computes
+(`C01.nextState_eq_from`); the open data pin captures constant 0 (audit: the earlier version kept the old value — the code never did) -/
 def nextState (net : Net) (a : Nat → Bool) : Nat → Bool :=
   let caps := (evalCaptures net a).toArray
-  fun j => if net.io.length ≤ j then ((caps.getD j none).getD (a j)) else a j
+  fun j => if net.io.length ≤ j then ((caps.getD j none).getD false) else a j
 
 def iterState (net : Net) : Nat → (Nat → Bool) → (Nat → Bool)
   | 0, a => a
